@@ -591,7 +591,63 @@ def manifest_task(item):
             oc['cli-failed'] += 1
     finally:
         shutil.rmtree(d, ignore_errors=True)
+    # the command line's own manifest interface: {backend taking an output name} x {name menu incl. dot files, dot folders and nested
+    # folders} x {--output-manifest, real run, real run checked against the right manifest / one entry too many / one too few}
+    for be, mkargs in CLI_NAME_BACKENDS:
+        for oname in CLI_OUT_NAMES:
+            n += 1
+            d = explore.fresh_dir('c18x')
+            try:
+                paths = []
+                for i, (p, t) in enumerate(specs):
+                    fp = os.path.join(d, os.path.basename(p))
+                    with open(fp, 'w', encoding='utf-8') as f:
+                        f.write(t)
+                    paths.append(fp)
+                bargs = mkargs(oname)
+                inputs = {'specs': specs, 'backend': be, 'backend_args': bargs}
+                code, _, so, se, esc = impl.run_cli([be, os.path.join(d, 'm')] + paths + ['--output-manifest', '--'] + bargs)
+                code2, _, so2, se2, esc2 = impl.run_cli([be, os.path.join(d, 'r')] + paths + ['--'] + bargs)
+                if esc or esc2 or code != 0 or code2 != 0:
+                    if (code != 0 or bool(esc)) != (code2 != 0 or bool(esc2)):
+                        out_v.append(viol('cli-manifest-outcome:%s' % be, 'manifest run %r / real run %r with %r' % (esc or code, esc2 or code2, bargs), inputs))
+                    oc['cli-name-failed'] += 1
+                    continue
+                listed = json.loads(so)
+                real = sorted(impl.read_tree(os.path.join(d, 'r')))
+                if listed != real:
+                    out_v.append(viol('cli-manifest:%s:%s' % (be, name_class(oname)), '--output-manifest printed %r; a real run with the same arguments creates %r' % (listed[:10], real[:10]), inputs))
+                    continue
+                for mode, expected, must_pass in [('same', real, True), ('one-more', real + ['zz/extra.txt'], False), ('one-less', real[:-1], False)]:
+                    if mode == 'one-less' and not real:
+                        continue
+                    n += 1
+                    mf = os.path.join(d, 'expected-%s.json' % mode)
+                    with open(mf, 'w') as f:
+                        json.dump(expected, f)
+                    code3, _, so3, se3, esc3 = impl.run_cli([be, os.path.join(d, 'e-' + mode)] + paths + ['--expected-output-manifest', mf, '--'] + bargs)
+                    passed = code3 == 0 and not esc3
+                    if esc3:
+                        out_v.append(viol('cli-expected-manifest-escape:%s' % esc3[0], 'checking a real run against a manifest raised %s' % (esc3[2][-300:],), dict(inputs, expected=expected)))
+                    elif passed != must_pass:
+                        out_v.append(viol('cli-expected-manifest:%s:%s:%s' % (be, mode, name_class(oname)),
+                                          'a real run of %s %r checked against %s was %s: %s' % (
+                                              be, bargs, {'same': 'exactly the files it creates', 'one-more': 'a manifest with one entry too many', 'one-less': 'a manifest with one entry too few'}[mode],
+                                              'accepted' if passed else 'refused', se3[-200:]), dict(inputs, expected=expected)))
+                    else:
+                        oc['cli-expected-%s-ok' % mode] += 1
+            finally:
+                shutil.rmtree(d, ignore_errors=True)
     return {'outcome': oc, 'viol': out_v, 'n': n, 'transitions': n}
+
+
+CLI_OUT_NAMES = ['t.js', '.t.js', 'sub/t.js', '.gen/t.js', 'sub/.t.js', '.gen/.t.js', 'a.b/c.d.js', '..t.js', '_t.js', 't']
+CLI_NAME_BACKENDS = [('js_types', lambda nm: [nm]), ('js_client', lambda nm: [nm]),
+                     ('python_client', lambda nm: ['-m', nm.replace('/', '_').replace('.js', ''), '-c', 'C', '-t', 'pkg'])]
+
+
+def name_class(nm):
+    return ('dot-folder/' if nm.split('/')[0].startswith('.') and '/' in nm else 'folder/' if '/' in nm else '') + ('dot-file' if os.path.basename(nm).startswith('.') else 'plain-file')
 
 
 def task(item):
@@ -611,6 +667,19 @@ def run(tier, seed):
     all_scripts = list(scripts(slen)) if tier == 'quick' else [sc for sc in scripts(slen) if len(sc) < 4 or sum(1 for op in sc if op[0] in ('emit', 'raw')) <= 1]
     if tier != 'quick':
         r.notes.append('length-4 scripts: those with at most one plain emit/emit_raw (the combinations of contexts, lists, wrapped text and placeholders)')
+    # generate_multiline_list: the whole argument product, at top level, inside an indent and inside a block
+    list_scripts = []
+    for its in ((), ('only',), ('a', '{b}'), ('a', 'b', 'c%s')):
+        for before in ('', 'call{'):
+            for after in ('', ';', ' -- x'):
+                for delim in (('(', ')'), ('', ''), ('[', ''), ('', ']')):
+                    for compact in (True, False):
+                        for sep in (',', ''):
+                            for skip in (False, True):
+                                op = ('list', its, before, after, delim, compact, sep, skip)
+                                list_scripts += [(op,), (('indent+', None), op, ('emit', 'x')), (('block+', 'class {A}', ';', ('{', '}'), None, False), op)]
+    r.bounds['multiline_list_scripts'] = len(list_scripts)
+    all_scripts = all_scripts + list_scripts
     chunk = 400
     for i in range(0, len(all_scripts), chunk):
         items.append(('emit', all_scripts[i:i + chunk]))
